@@ -56,5 +56,6 @@ PTRepairLive == << <<"Honest", "Honest", 0, 4>>, <<"Silent", "Silent", 0, 4>>,
 NoCorruption == {{}}
 CorrQuick == {{}, {<<1, "del">>}, {<<2, "bad">>}, {<<1, "bad">>, <<3, "del">>}, {<<3, "bad">>}}
 CorrFullNoAbort == CorrQuick \cup {{<<1, "del">>, <<2, "bad">>}, {<<2, "bad">>, <<3, "bad">>}, {<<3, "del">>}, {<<1, "bad">>}}
+CorrAbort == {{<<2, "del">>}, {<<2, "del">>, <<1, "bad">>}}
 CorrFull == CorrQuick \cup {{<<2, "del">>}, {<<1, "del">>, <<2, "del">>}, {<<2, "bad">>, <<3, "bad">>}, {<<3, "del">>}}
 =============================================================================
